@@ -4,6 +4,7 @@
 //   sem <ops>                          p = post, w = trywait  (single thread)  -> successes and final value
 //   semc <prod> <cons> <k>             concurrent posts and blocking waits, all must return
 //   cond <waiters> <reps>              documented condition-variable protocol, every waiter must return
+//   condt <u|t per waiter> <reps> <timeout ms>   the same with timed waiters; signal only once all are blocked
 //   pfs <i0> <i1> <nth> <max>          all interleavings of parallel_for at the hook points (deterministic scheduler), traces
 //   ths <kind> <n> <max>               same for thread kinds
 #include "common.h"
@@ -212,6 +213,52 @@ static std::string step(const Toks& t)
 			mutex.unlock();
 			for (size_t i = 0; i < ts.size(); i++) { ts[i]->join(); delete ts[i]; }
 			if (woke != W) return "lost woke=" + str(woke);
+		}
+		return "ok";
+	}
+	if (t[0] == "condt" && t.size() == 4) {
+		// timed and untimed waiters (u = untimed, t = wait(timeout), one letter per waiter): the signal is issued, mutex held,
+		// only after every waiter is blocked; each must wake promptly, and a timed wait must not report a timeout
+		std::string kinds = t[1];
+		int reps = (int)num(t[2]);
+		double timeout = num(t[3]) / 1000.0;
+		int W = (int)kinds.size();
+		for (int r = 0; r < reps; r++) {
+			bool ready = false;
+			Mutex mutex;
+			Condition cond(mutex);
+			volatile int blocked = 0, woke = 0, timedout = 0;
+			double tsignal = 0;
+			std::vector<double> twake(W, 0.0);
+			std::vector<Thread*> ts;
+			for (int w = 0; w < W; w++) {
+				bool timed = kinds[w] == 't';
+				ts.push_back(new Thread([&, w, timed]() {
+					jitter();
+					mutex.lock();
+					blocked++;
+					while (!ready) {
+						if (timed) { if (cond.wait(timeout)) { timedout++; break; } }
+						else cond.wait();
+					}
+					twake[w] = now();
+					mutex.unlock();
+					__sync_add_and_fetch(&woke, 1);
+				}));
+			}
+			for (;;) {
+				mutex.lock();
+				bool all = blocked == W;
+				if (all) { ready = true; tsignal = now(); cond.signal(); }
+				mutex.unlock();
+				if (all) break;
+				usleep(200);
+			}
+			for (size_t i = 0; i < ts.size(); i++) { ts[i]->join(); delete ts[i]; }
+			if (woke != W) return "lost woke=" + str(woke);
+			if (timedout) return "lost: " + str((int)timedout) + " timed waiter(s) reported a timeout although the signal was issued while they were blocked";
+			for (int w = 0; w < W; w++)
+				if (twake[w] - tsignal > timeout * 0.5) return "lost: waiter " + str(w) + " woke " + str((int)((twake[w] - tsignal) * 1000)) + " ms after the signal";
 		}
 		return "ok";
 	}
